@@ -19,6 +19,7 @@ import (
 
 type eqctx struct {
 	visited map[[2]uintptr]bool
+	depth   int
 }
 
 func isNilLike(v reflect.Value) bool {
@@ -225,6 +226,32 @@ func (c *eqctx) loose(a, b reflect.Value, path string) string {
 			return fmt.Sprintf("%s: nil-ness %v vs %v (iface)", path, an, bn)
 		}
 		return ""
+	}
+	// cycle guard: the identity of the pointer being unwrapped on the original side, paired with the
+	// identity (pointer, slice or map) of what came back
+	for a.IsValid() && (a.Kind() == reflect.Ptr || a.Kind() == reflect.Interface) {
+		if a.Kind() == reflect.Ptr {
+			bb := b
+			for bb.IsValid() && bb.Kind() == reflect.Interface && !bb.IsNil() {
+				bb = bb.Elem()
+			}
+			var bp uintptr
+			switch bb.Kind() {
+			case reflect.Ptr, reflect.Slice, reflect.Map:
+				bp = bb.Pointer()
+			}
+			key := [2]uintptr{a.Pointer(), bp}
+			if c.visited[key] {
+				return ""
+			}
+			c.visited[key] = true
+		}
+		a = a.Elem()
+	}
+	c.depth++
+	defer func() { c.depth-- }()
+	if c.depth > 2000 {
+		return path[:40] + "…: comparison too deep (cyclic value decoded by copying?)"
 	}
 	a, b = strip(a), strip(b)
 	if x, ok := numOf(a); ok {
